@@ -3,6 +3,7 @@ package props
 import (
 	"encoding/json"
 	"fmt"
+	"math"
 	"strings"
 
 	"github.com/fufuok/cache/zzverif/adapt"
@@ -72,7 +73,8 @@ var e1Focuses = map[string]*e1Focus{
 		{model.HAdvance, 16}, {model.HBulkSet, 6}, {model.HBulkDel, 5}, {model.HBulkGet, 2}}},
 }
 
-var e1TTL = []int64{model.NoExpiration, model.DefaultExpiration, model.NoExpiration - 1, -1500000000, -1, 0, 1, 2, 7, 50, 1000, 1000000000, 1 << 62}
+var e1TTL = []int64{model.NoExpiration, model.DefaultExpiration, model.NoExpiration - 1, -1500000000, -1, 0, 1, 2, 7, 50, 1000, 1000000000, 1 << 62,
+	math.MaxInt64, math.MaxInt64 - 1700000000000000000, math.MaxInt64 - 1600000000000000000, math.MinInt64}
 
 func genE1Spec(rt *rapid.T, f *e1Focus) adapt.Spec {
 	s := adapt.Spec{Kind: pick(rt, []string{"cache", "cacheof"}, "container")}
